@@ -84,10 +84,8 @@ Proof.
     + rewrite (contextual_scope_enter_dict vs l p P) in E. apply some_pair_inj in E. destruct E as [<- _]. apply wt_set; auto.
     + rewrite contextual_scope_enter_other in E by discriminate. apply some_pair_inj in E. destruct E as [<- _].
       rewrite P. apply wt_set; auto.
-  - unfold detour_enter in E. destruct (tl_peek k_detour v_empty_dict l) as [x|p|x]; try discriminate.
-    destruct a as [x|vs|x]; try discriminate. apply some_pair_inj in E. destruct E as [<- _]. apply wt_push; auto. discriminate.
-  - unfold detour_enter in E. destruct (tl_peek k_detour v_empty_dict l) as [x|p|x]; try discriminate.
-    destruct a as [x|vs|x]; try discriminate. apply some_pair_inj in E. destruct E as [<- _]. apply wt_push; auto. discriminate.
+  - unfold detour_scope_enter in E. apply some_pair_inj in E. destruct E as [<- _]. apply wt_push; auto. discriminate.
+  - unfold detour_scope_enter in E. apply some_pair_inj in E. destruct E as [<- _]. apply wt_push; auto. discriminate.
   - unfold timeit_enter in E.
     match type of E with context [if ?b then _ else _] => destruct b end; apply some_pair_inj in E; destruct E as [<- _];
       apply wt_tl_set_free; auto.
@@ -153,10 +151,7 @@ Definition rule (c : cm) (a : val) (s : state) : val :=
   | CContextual =>                                                             (* cascade *)
       match observe GContextual s, a with VD p, VD vs => VD (contextual_merge p vs) | o, _ => o end
   | CDetour | CApplyWrappers =>                                                (* outer mappings win, transitively *)
-      match observe GDetour s, a with
-      | VD cur, VD ms => VD (dict_update cur (filter_map (detour_resolve cur) ms))
-      | _, _ => v_none
-      end
+      match observe GDetour s with VD cur => VD (detour_spec cur a) | o => o end
   | CDynEvalGlobal => tl_get k_dynamic_evaluate a (fst s)                      (* this thread's own function first *)
   end.
 
@@ -166,6 +161,23 @@ Lemma get_context_push : forall d l, wt_store lclass nkeys l -> get_context (tl_
 Proof.
   intros d l W. destruct (st_get_push lclass nkeys k_context d l W eq_refl) as [r E]; [apply Nat.ltb_lt; vm_compute; reflexivity|].
   unfold get_context, tl_get. unfold k_context in *. rewrite E. reflexivity.
+Qed.
+
+Lemma current_mappings_push : forall d l, wt_store lclass nkeys l -> current_mappings (tl_push k_detour (VD d) l) = VD d.
+Proof.
+  intros d l W. destruct (st_get_push lclass nkeys k_detour d l W eq_refl) as [r E]; [apply Nat.ltb_lt; vm_compute; reflexivity|].
+  unfold current_mappings, tl_get. rewrite E. reflexivity.
+Qed.
+
+Lemma detour_effective : forall a l l1 sv, wt_store lclass nkeys l -> detour_scope_enter a l = Some (l1, sv) ->
+  current_mappings l1 = match current_mappings l with VD cur => VD (detour_spec cur a) | o => o end.
+Proof.
+  intros a l l1 sv W E. destruct (current_mappings_cases l) as [[c [C _]]|[C [T N]]].
+  - destruct (detour_scope_enter_typed a l c C) as [nw E']. rewrite E' in E. apply some_pair_inj in E. destruct E as [<- _].
+    rewrite C. apply current_mappings_push. assumption.
+  - (* a true non-list in the slot is excluded by typing *)
+    exfalso. destruct W as [_ W]. specialize (W k_detour). replace (lclass k_detour) with KStack in W by reflexivity.
+    unfold tl_get in T. destruct (st_get k_detour l) as [[x|x|x]|]; try discriminate W; try discriminate T. eapply N; eauto.
 Qed.
 
 Theorem effective_enter : forall c a s s1 sv, wt s -> valid_cm c = true ->
@@ -222,14 +234,8 @@ Proof.
       apply tl_get_set_same. rewrite Ll. apply Nat.ltb_lt; vm_compute; reflexivity.
     + rewrite contextual_scope_enter_other in E by discriminate. apply some_pair_inj in E. destruct E as [<- _].
       rewrite P. apply tl_get_set_same. rewrite Ll. apply Nat.ltb_lt; vm_compute; reflexivity.
-  - unfold observe. cbn [fst]. unfold detour_enter in E.
-    destruct (tl_peek k_detour v_empty_dict l) as [x|p|x]; try discriminate.
-    destruct a as [x|vs|x]; try discriminate. apply some_pair_inj in E. destruct E as [<- _].
-    eapply tl_peek_push; [eassumption | reflexivity | apply Nat.ltb_lt; vm_compute; reflexivity].
-  - unfold observe. cbn [fst]. unfold detour_enter in E.
-    destruct (tl_peek k_detour v_empty_dict l) as [x|p|x]; try discriminate.
-    destruct a as [x|vs|x]; try discriminate. apply some_pair_inj in E. destruct E as [<- _].
-    eapply tl_peek_push; [eassumption | reflexivity | apply Nat.ltb_lt; vm_compute; reflexivity].
+  - unfold observe. cbn [fst]. apply (detour_effective a l l1 sv Wl E).
+  - unfold observe. cbn [fst]. apply (detour_effective a l l1 sv Wl E).
   - unfold observe. cbn [fst]. unfold timeit_enter, k_timing in *.
     match type of E with context [is_none ?x] => destruct (is_none x) eqn:N end; cbn [negb] in E;
       apply some_pair_inj in E; destruct E as [<- _]; apply tl_get_set_same; rewrite Ll; apply Nat.ltb_lt; vm_compute; reflexivity.
